@@ -22,7 +22,8 @@ type c37Label struct {
 	Kind   string `json:"kind"` // sub | complete | srvsub | unsub | enqueue
 	Name   int    `json:"name,omitempty"`
 	Len    int    `json:"len,omitempty"`
-	SP     bool   `json:"sp,omitempty"`
+	SP     bool   `json:"sp,omitempty"`  // shared-poll route
+	Map    bool   `json:"map,omitempty"` // map route
 	Script string `json:"script,omitempty"` // ok | err | async
 	Tok    int    `json:"tok,omitempty"`
 	OK     bool   `json:"ok,omitempty"`
@@ -38,7 +39,13 @@ func (l c37Label) coq() string {
 		} else if l.Script == "async" {
 			sc = "SAsync"
 		}
-		return vApp("LSub", vN(uint64(l.Name)), vN(uint64(l.Len)), vBool(l.SP), sc)
+		rt := "RStream"
+		if l.SP {
+			rt = "RSharedPoll"
+		} else if l.Map {
+			rt = "RMap"
+		}
+		return vApp("LSub", vN(uint64(l.Name)), vN(uint64(l.Len)), rt, sc)
 	case "complete":
 		return vApp("LComplete", vN(uint64(l.Tok)), vBool(l.OK))
 	case "srvsub":
@@ -107,6 +114,7 @@ type c37H struct {
 	names   map[string]int
 	scripts map[string]string
 	pending map[int]func(ok bool)
+	mapPending map[int]int // token -> model name of a held map subscribe
 	nextTok int
 	// write gate
 	blocked bool
@@ -170,6 +178,9 @@ func c37Channel(name, length int, sp bool) string {
 	base := fmt.Sprintf("c%d", name)
 	if sp {
 		base = fmt.Sprintf("sp%d", name)
+	}
+	if name >= 20 { // map channels
+		base = fmt.Sprintf("m%d", name)
 	}
 	if length > len(base) {
 		base += strings.Repeat("x", length-len(base))
@@ -246,7 +257,7 @@ func (h *c37H) settle(wasClosed *bool) []c37Ev {
 }
 
 func c37Run(t *testing.T, limit, maxlen, maxq int, kind string, r *rand.Rand, fixed []c37Label, steps int) (labels []c37Label, obs [][]c37Ev, snaps []c37Snap) {
-	h := &c37H{t: t, marker: make(chan struct{}, 1), names: map[string]int{}, scripts: map[string]string{}, pending: map[int]func(bool){},
+	h := &c37H{t: t, marker: make(chan struct{}, 1), names: map[string]int{}, scripts: map[string]string{}, pending: map[int]func(bool){}, mapPending: map[int]int{},
 		gate: make(chan struct{}), entered: make(chan struct{}, 1)}
 	cfgv := func(n int) int {
 		if n == 0 {
@@ -257,10 +268,21 @@ func c37Run(t *testing.T, limit, maxlen, maxq int, kind string, r *rand.Rand, fi
 	node, err := New(Config{LogLevel: LogLevelNone, ClientChannelLimit: cfgv(limit), ChannelMaxLength: cfgv(maxlen), ClientQueueMaxSize: cfgv(maxq),
 		SharedPoll: SharedPollConfig{GetSharedPollChannelOptions: func(ch string) (SharedPollChannelOptions, bool) {
 			return SharedPollChannelOptions{RefreshInterval: time.Hour, RefreshBatchSize: 10, MaxKeysPerConnection: 10}, strings.HasPrefix(ch, "sp")
+		}},
+		Map: MapConfig{GetMapChannelOptions: func(string) MapChannelOptions {
+			return MapChannelOptions{Mode: MapModeEphemeral, KeyTTL: time.Minute, MinPageSize: 1}
 		}}})
 	if err != nil {
 		t.Fatal(err)
 	}
+	mapBroker, err := NewMemoryMapBroker(node, MemoryMapBrokerConfig{})
+	if err != nil {
+		t.Fatal(err)
+	}
+	if err := mapBroker.RegisterEventHandler(nil); err != nil {
+		t.Fatal(err)
+	}
+	node.SetMapBroker(mapBroker)
 	node.OnSharedPoll(func(context.Context, SharedPollEvent) (SharedPollResult, error) { return SharedPollResult{}, nil })
 	node.OnConnecting(func(context.Context, ConnectEvent) (ConnectReply, error) {
 		return ConnectReply{Credentials: &Credentials{UserID: "u"}}, nil
@@ -277,14 +299,17 @@ func c37Run(t *testing.T, limit, maxlen, maxq int, kind string, r *rand.Rand, fi
 					return
 				}
 				rep := SubscribeReply{}
-				if e.Type == SubscriptionTypeSharedPoll {
-					rep.Options.Type = SubscriptionTypeSharedPoll
+				if e.Type == SubscriptionTypeSharedPoll || e.Type == SubscriptionTypeMap {
+					rep.Options.Type = e.Type
 				}
 				cb(rep, nil)
 			}
 			switch sc {
 			case "async":
 				h.pending[h.nextTok] = answer
+				if e.Type == SubscriptionTypeMap {
+					h.mapPending[h.nextTok] = h.names[e.Channel]
+				}
 				h.nextTok++
 			case "err":
 				cb(SubscribeReply{}, &Error{Code: 109, Message: "scripted"})
@@ -371,9 +396,27 @@ func c37Run(t *testing.T, limit, maxlen, maxq int, kind string, r *rand.Rand, fi
 				l = c37Label{Kind: "complete", Tok: tk, OK: r.Intn(4) != 0}
 			case x < 75:
 				name := 1 + r.Intn(7)
+				if r.Intn(3) == 0 {
+					name = 20 + r.Intn(5) // map route
+				}
 				if prev, ok := used[name]; ok {
 					l = prev
 					l.Script = []string{"ok", "ok", "err", "async", "async"}[r.Intn(5)]
+					if l.Map {
+						for tk := range h.mapPending {
+							if h.mapPending[tk] == name {
+								// no two overlapping map subscribes of one channel
+								l = c37Label{Kind: "srvsub", Name: 10 + r.Intn(4)}
+							}
+						}
+					}
+				} else if name >= 20 {
+					ln := 3 + r.Intn(3)
+					if maxlen > 0 && r.Intn(5) == 0 {
+						ln = maxlen + r.Intn(3)
+					}
+					l = c37Label{Kind: "sub", Name: name, Len: ln, Map: true, Script: []string{"ok", "async", "async", "err"}[r.Intn(4)]}
+					used[name] = l
 				} else {
 					sp := r.Intn(4) == 0
 					ln := 3 + r.Intn(3)
@@ -420,11 +463,16 @@ func c37Run(t *testing.T, limit, maxlen, maxq int, kind string, r *rand.Rand, fi
 			req := &protocol.SubscribeRequest{Channel: ch}
 			if l.SP {
 				req.Type = int32(SubscriptionTypeSharedPoll)
+			} else if l.Map {
+				req.Type = int32(SubscriptionTypeMap)
+				req.Phase = MapPhaseState
+				req.Limit = 100
 			}
 			command(&protocol.Command{Id: cmdID, Subscribe: req})
 		case "complete":
 			if cb, ok := h.pending[l.Tok]; ok {
 				delete(h.pending, l.Tok)
+				delete(h.mapPending, l.Tok)
 				cb(l.OK)
 			}
 		case "srvsub":
@@ -516,6 +564,8 @@ func TestVerifC37(t *testing.T) {
 		{2, 8, 0, "subs", []c37Label{sub(1, 3, false, "ok"), sub(2, 3, false, "ok"), {Kind: "srvsub", Name: 10}}},                              // server-side at the limit: disconnect
 		{4, 6, 0, "subs", []c37Label{sub(1, 6, false, "ok"), sub(2, 7, false, "ok"), sub(3, 9, false, "async")}},                               // name length: at max ok, above rejected
 		{4, 6, 0, "subs", []c37Label{sub(1, 6, true, "ok"), sub(2, 7, true, "ok"), sub(3, 12, true, "async")}},                                  // the same on the shared-poll route
+		{2, 8, 0, "subs", []c37Label{{Kind: "sub", Name: 20, Len: 3, Map: true, Script: "async"}, {Kind: "sub", Name: 21, Len: 3, Map: true, Script: "async"}, {Kind: "sub", Name: 22, Len: 3, Map: true, Script: "async"},
+			{Kind: "complete", Tok: 0, OK: true}, {Kind: "complete", Tok: 1, OK: true}, {Kind: "complete", Tok: 2, OK: true}}}, // overlapping map subscribes at limit 2
 		{0, 0, 200, "queue", []c37Label{{Kind: "enqueue", Size: 90}, {Kind: "enqueue", Size: 90}, {Kind: "enqueue", Size: 90}}},              // third crosses 200
 		{0, 0, 200, "queue", []c37Label{{Kind: "enqueue", Size: 100}, {Kind: "enqueue", Size: 100}, {Kind: "enqueue", Size: 40}}},            // exactly 200 is fine, 240 is slow
 	}
